@@ -4,8 +4,8 @@
    update, repo_patches/C12-offset-back.diff); on the unchanged tree the check reports the saved
    rear position as a violation. *)
 From Coq Require Import Reals List Bool ZArith Lra.
-From AltModel Require Import Num Interp Resist Braking TrainStep.
-From AltProofs Require Import NumR ResistP TrainStepP.
+From AltModel Require Import Num Interp Powertrain Loco Consist Resist Braking TrainStep TrainFull.
+From AltProofs Require Import NumR ResistP TrainStepP ConsistP TrainFullP.
 Import ListNotations.
 Open Scope R_scope.
 
@@ -100,3 +100,25 @@ Theorem C12_initial_state : forall (length ms mr mf t0 : R) offset0 v0,
   length <= k_offset (ts_k st) /\ (forall o, offset0 = Some o -> o <= k_offset (ts_k st)) /\
   k_total_dist (ts_k st) = 0 /\ k_i (ts_k st) = 1%nat /\ 0 <= k_offset_back (ts_k st).
 Proof. exact ts_new_rear. Qed.
+
+(* ---- the WHOLE speed-limit simulation step (coq/model/TrainFull.v: the consist inside; tied to the real step()
+   in check C11): the bookkeeping law holds, the saved speed is the integrated one or the target it was snapped
+   to, the step counter advances by one ---- *)
+Theorem C12_whole_step : forall (e : Env (F:=R)) pts fmax (s s'' : SLState (F:=R)) (c c' : ConsistR),
+  sl_full_step e pts fmax (s, c) = Ok (s'', c') ->
+  exists raw, kin_law (e_lps e) (sl_st s) (sl_st s'') raw /\
+    (k_speed (ts_k (sl_st s'')) = raw \/
+     (k_speed (ts_k (sl_st s'')) = k_speed_target (ts_k (sl_st s'')) /\
+      almost_eq raw (k_speed_target (ts_k (sl_st s''))) eps8 = true)) /\
+    k_i (ts_k (sl_st s'')) = S (k_i (ts_k (sl_st s))).
+Proof. exact sl_full_step_kin. Qed.
+
+(* along every whole run: the step size is constant, the clock advances by n * dt, the step counter by n, the rear
+   stays one train length behind the front, the train's parameters never change *)
+Theorem C12_whole_run_clock : forall (e : Env (F:=R)) pts fmax n x x',
+  sl_full_run n e pts fmax x = Ok x' ->
+  let k := ts_k (sl_st (fst x)) in let k' := ts_k (sl_st (fst x')) in
+  k_dt k' = k_dt k /\ k_time k' = k_time k + INR n * k_dt k /\ k_i k' = (k_i k + n)%nat /\
+  ((1 <= n)%nat -> k_offset_back k' = k_offset k' - p_length (ts_p (sl_st (fst x')))) /\
+  ts_p (sl_st (fst x')) = ts_p (sl_st (fst x)).
+Proof. exact sl_full_run_clock. Qed.
